@@ -123,6 +123,41 @@ func opErrPosAfterLookahead(c *ctx) string {
 	return unknown("parseExe operation-type error position", c.pos(fd))
 }
 
+// fragCondPosAfterToken: is "missing fragment condition" located from the counters after the token was read
+// (`p.line, p.col-2`, D70) or from values sampled just before it?
+func fragCondPosAfterToken(c *ctx) string {
+	fd := c.funcs["exeParser.readFragmentDef"]
+	if fd == nil {
+		return unknown("readFragmentDef", "exeparser.go")
+	}
+	src := regexp.MustCompile(`\s+`).ReplaceAllString(regexp.MustCompile(`(?m)//.*$`).ReplaceAllString(c.src(fd.Body), ""), " ")
+	switch {
+	case strings.Contains(src, `if token, err = p.readToken(); token != "on" { err = parseError(p.line, p.col-2, "missing fragment condition") }`):
+		return "true"
+	case strings.Contains(src, `line, col := p.line, p.col if token, err = p.readToken(); token != "on" { err = parseError(line, col, "missing fragment condition") }`):
+		return "false"
+	}
+	return unknown("readFragmentDef condition error position", c.pos(fd))
+}
+
+// varDefPosAfterToken: is a variable definition located from the counters after its name was read
+// (`vd.col = p.col - len(vd.Name)`, D71) or from values sampled before?
+func varDefPosAfterToken(c *ctx) string {
+	fd := c.funcs["exeParser.readVarDef"]
+	if fd == nil {
+		return unknown("readVarDef", "exeparser.go")
+	}
+	src := regexp.MustCompile(`\s+`).ReplaceAllString(regexp.MustCompile(`(?m)//.*$`).ReplaceAllString(c.src(fd.Body), ""), " ")
+	switch {
+	case strings.Contains(src, "vd.line = p.line vd.col = p.col - len(vd.Name)"):
+		return "true"
+	case strings.Contains(src, "vd = &VarDef{} line, col := p.line, p.col+1 if vd.Name, err = p.readToken(); err != nil { return }") &&
+		strings.Contains(src, "vd.line = line vd.col = col"):
+		return "false"
+	}
+	return unknown("readVarDef position", c.pos(fd))
+}
+
 func genParse(c *ctx) string {
 	var b strings.Builder
 	b.WriteString("namespace Ggql.Gen\n")
@@ -130,6 +165,8 @@ func genParse(c *ctx) string {
 	fmt.Fprintf(&b, "def exeVarTypeOptional : Bool := %s\n", varTypeGuard(c))
 	fmt.Fprintf(&b, "def fieldPosAfterLookahead : Bool := %s\n", fieldPosAfterLookahead(c))
 	fmt.Fprintf(&b, "def opErrPosAfterLookahead : Bool := %s\n", opErrPosAfterLookahead(c))
+	fmt.Fprintf(&b, "def fragCondPosAfterToken : Bool := %s\n", fragCondPosAfterToken(c))
+	fmt.Fprintf(&b, "def varDefPosAfterToken : Bool := %s\n", varDefPosAfterToken(c))
 	type ent struct{ name, h string }
 	var ents []ent
 	for name, fd := range c.funcs {
